@@ -378,13 +378,17 @@ def zl(l):
     return '[' + ','.join(str(int(x)) for x in l) + ']'
 
 
-def model_inputs(text, order):
+def model_inputs(text, order, hdr=None):
     """model case arguments from the PAR text as parsed by nibabel.parrec.parse_PAR_header (documented
-    function; the parser is C10/C12 territory, not C20's)"""
+    function; the parser is C10/C12 territory, not C20's); hdr = the loaded image's header, which holds
+    that same parse (general_info, image_defs), when the load succeeded"""
     from nibabel.parrec import parse_PAR_header
-    with warnings.catch_warnings():
-        warnings.simplefilter('ignore')
-        gi, idefs = parse_PAR_header(io.StringIO(text))
+    if hdr is not None:
+        gi, idefs = hdr.general_info, hdr.image_defs
+    else:
+        with warnings.catch_warnings():
+            warnings.simplefilter('ignore')
+            gi, idefs = parse_PAR_header(io.StringIO(text))
 
     class H:
         general_info = gi
@@ -521,7 +525,7 @@ def eval_case(chk, case, fx, ref_cache):
     present = sorted(order)
     text, rec = synthesise(f, order, case['scheme'], case.get('gi'))
     o = impl_load(text, rec, case['strict'], case['permit'], case['fp'])
-    mi = model_inputs(text, order)
+    mi = model_inputs(text, order, o.get('hdr'))
     info = {'order': order, 'present': present}
     keys_by_id = {i: [k[p] for k in mi['keys']] for p, i in enumerate(order)}
     info['distinct_keys'] = len({tuple(v) for v in keys_by_id.values()}) == len(order)
@@ -551,7 +555,8 @@ def predicates(case, o, info, f, ref):
     if m:
         out.append(('own_factors', m, None))
     claim_order = (case['strict'] and info['distinct_keys']) or (not case['strict'] and info['preserving'])
-    if claim_order and ref is not None and ref['status'] == 'ok':
+    ref = ref() if claim_order else None        # the un-permuted load is only needed where order independence is claimed
+    if ref is not None and ref['status'] == 'ok':
         m = pred_same_as(o, ref)
         if m:
             out.append(('order_independent', m, None))
@@ -606,10 +611,10 @@ def run(chk: Check):
                     'fone fdiv fmul), NumPy fancy indexing rec[..., idx] and F-order reshape, the PAR text parser '
                     '(parse_PAR_header, used to derive the model inputs)']
     chk.extra['unproved_statements'] = [
-        'C20_strict_label_volumes (positive part): for strict sorting, when no volume is truncated or only the '
-        'last volume in key order is, every output volume consists of records agreeing on all non-slice keys with '
-        'slices 1..max in order - not proved in Coq (its unrestricted form is refuted: C20_strict_label_volumes_refuted '
-        '= S-C20b); checked by the direct predicate truncated_complete_only on every case']
+        'C20_strict_complete_volumes takes the shape of the stage-1 order (complete volumes, then at most one incomplete '
+        'one) as its hypothesis; that a key-sorted list of records with pairwise distinct keys whose label groups are '
+        'complete decomposes into such blocks is not derived in Coq (it is what sorting with the slice number as least '
+        'significant key gives) - exercised by the direct predicate truncated_complete_only on every case']
     chk.build()
     chk.run_probes()
     if not chk.model_ok:
@@ -712,8 +717,7 @@ def run(chk: Check):
                     a, b = mout.split(' '), (line % nv).split(' ')
                     bad = [x.split('=')[0] for x, y in zip(a, b) if x != y]
                     dis = ('load:' + ','.join(bad), mout[:300], (line % nv)[:300])
-        ref = reference(case, fx, ref_cache) if o['status'] == 'ok' else None
-        fails = predicates(case, o, info, f, ref)
+        fails = predicates(case, o, info, f, lambda: reference(case, fx, ref_cache))
         genuine = [x for x in fails if x[2] is None]
         for name, msg, known in fails:
             if known:
@@ -790,8 +794,7 @@ def replay(chk, obj):
     fx = {f.name: f for f in load_fixtures()}
     f = fx[c['fixture']]
     o, mi, info = eval_case(chk, c, fx, {})
-    ref = reference(c, fx, {}) if o['status'] == 'ok' else None
-    fails = predicates(c, o, info, f, ref)
+    fails = predicates(c, o, info, f, lambda: reference(c, fx, {}))
     print({'status': o['status'], 'shape': o.get('shape'), 'idx': o.get('idx'), 'payload': o.get('payload')})
     for name, msg, known in fails:
         print(f'{name}: {msg}' + (f' [known finding {known}]' if known else ''))
